@@ -150,6 +150,39 @@ impl Sink for HistSink<'_> {
                     None
                 }
             }
+            Some(Op::FindNth(k)) => {
+                let r = if k < self.rem() {
+                    Some(self.expect[self.lo + k])
+                } else {
+                    None
+                };
+                self.lo = self.hi;
+                r
+            }
+            Some(Op::RevNth(k)) => {
+                let r = if k < self.rem() {
+                    Some(self.expect[self.hi - 1 - k])
+                } else {
+                    None
+                };
+                self.lo = self.hi;
+                r
+            }
+            Some(Op::Min) | Some(Op::Max) => {
+                let rest = &self.expect[self.lo..self.hi];
+                let key = |v: &Val| match v {
+                    Val::D(d) => (*d, ""),
+                    Val::S(s) => (0, *s),
+                };
+                // Iterator::min returns the first minimum, Iterator::max the last maximum
+                let r = if matches!(op, Some(Op::Min)) {
+                    rest.iter().copied().min_by(|a, b| key(a).cmp(&key(b)))
+                } else {
+                    rest.iter().copied().max_by(|a, b| key(a).cmp(&key(b)))
+                };
+                self.lo = self.hi;
+                r
+            }
             other => {
                 self.err(format!("harness: item() reported for {other:?}"));
                 None
@@ -192,8 +225,16 @@ impl Sink for HistSink<'_> {
         self.events += 1;
         let op = self.cur.map(|c| c.1);
         let mut exp: Vec<Val> = self.expect[self.lo..self.hi].to_vec();
-        if matches!(op, Some(Op::RFold) | Some(Op::RevCollect)) {
-            exp.reverse();
+        match op {
+            Some(Op::RFold) | Some(Op::RevCollect) => exp.reverse(),
+            Some(Op::TryFoldStop(k)) => exp.truncate(k.max(1)),
+            Some(Op::TryRFoldStop(k)) => {
+                exp.reverse();
+                exp.truncate(k.max(1));
+            }
+            Some(Op::StepBy(st)) => exp = exp.into_iter().step_by(st.max(1)).collect(),
+            Some(Op::SkipTake(a, b)) => exp = exp.into_iter().skip(a).take(b).collect(),
+            _ => {}
         }
         self.lo = self.hi;
         self.note_state();
@@ -217,6 +258,34 @@ impl Sink for HistSink<'_> {
 
     fn pair(&mut self, _v: D, _s: &'static str) {
         self.err("harness: pair() reported to a history sink".to_string());
+    }
+
+    fn opt_index(&mut self, i: Option<usize>) {
+        self.events += 1;
+        let op = self.cur.map(|c| c.1);
+        let rem = self.rem();
+        let exp = match op {
+            Some(Op::Position(k)) => {
+                if k < rem {
+                    Some(k)
+                } else {
+                    None
+                }
+            }
+            Some(Op::RPosition(k)) => {
+                if k < rem {
+                    Some(rem - 1 - k)
+                } else {
+                    None
+                }
+            }
+            _ => None,
+        };
+        self.lo = self.hi;
+        self.tline(format!("{:?} -> {:?}", op, i));
+        if i != exp {
+            self.err(format!("returned {i:?}, model {exp:?}"));
+        }
     }
 }
 
@@ -257,8 +326,34 @@ const CONSUMING: [Op; 6] = [
     Op::RevCollect,
 ];
 
+/// a consuming operation, parameters chosen relative to the remaining length
+pub fn consuming(rng: &mut Rng, rem: usize, ord: bool) -> Op {
+    match rng.below(if ord { 16 } else { 14 }) {
+        0 => Op::Fold,
+        1 => Op::RFold,
+        2 => Op::Last,
+        3 => Op::Count,
+        4 => Op::Collect,
+        5 => Op::RevCollect,
+        6 => Op::TryFoldStop(pick_k(rng, rem).min(rem + 2)),
+        7 => Op::TryRFoldStop(pick_k(rng, rem).min(rem + 2)),
+        8 => Op::FindNth(pick_k(rng, rem).min(rem + 2)),
+        9 => Op::Position(pick_k(rng, rem).min(rem + 2)),
+        10 => Op::RPosition(pick_k(rng, rem).min(rem + 2)),
+        11 => Op::StepBy(1 + rng.below(3) as usize),
+        12 => Op::SkipTake(pick_k(rng, rem).min(rem + 2), pick_k(rng, rem).min(rem + 2)),
+        13 => Op::RevNth(pick_k(rng, rem).min(rem + 2)),
+        14 => Op::Min,
+        _ => Op::Max,
+    }
+}
+
 /// one random history of at most `max_ops` operations over a sequence of length `n`
 pub fn random_history(rng: &mut Rng, n: usize, max_ops: usize) -> Vec<Op> {
+    random_history_ord(rng, n, max_ops, false)
+}
+
+pub fn random_history_ord(rng: &mut Rng, n: usize, max_ops: usize, ord: bool) -> Vec<Op> {
     let len = 1 + rng.below(max_ops as u64) as usize;
     let mut rem = n;
     let mut ops = Vec::with_capacity(len + 1);
@@ -275,7 +370,7 @@ pub fn random_history(rng: &mut Rng, n: usize, max_ops: usize) -> Vec<Op> {
         ops.push(op);
     }
     if rng.chance(2, 3) {
-        ops.push(CONSUMING[rng.below(6) as usize]);
+        ops.push(consuming(rng, rem, ord));
     }
     ops
 }
@@ -304,9 +399,52 @@ pub fn exhaustive_interleavings(n: usize) -> Vec<Vec<Op>> {
     out
 }
 
+fn all_consuming(rem: usize, ord: bool) -> Vec<Op> {
+    let mut v = CONSUMING.to_vec();
+    v.extend([
+        Op::TryFoldStop(1),
+        Op::TryFoldStop(rem),
+        Op::TryRFoldStop(2),
+        Op::FindNth(0),
+        Op::FindNth(rem.saturating_sub(1)),
+        Op::FindNth(rem),
+        Op::Position(rem.saturating_sub(1)),
+        Op::Position(rem),
+        Op::RPosition(0),
+        Op::RPosition(rem),
+        Op::StepBy(2),
+        Op::SkipTake(1, rem),
+        Op::RevNth(0),
+        Op::RevNth(rem),
+    ]);
+    if ord {
+        v.extend([Op::Min, Op::Max]);
+    }
+    v
+}
+
 /// fixed histories every sequence gets: plain consuming ops, exhaustion + fused tail
 pub fn fixed_histories(n: usize) -> Vec<Vec<Op>> {
-    let mut out: Vec<Vec<Op>> = CONSUMING.iter().map(|c| vec![*c]).collect();
+    fixed_histories_ord(n, false)
+}
+
+pub fn fixed_histories_ord(n: usize, ord: bool) -> Vec<Vec<Op>> {
+    let mut out: Vec<Vec<Op>> = all_consuming(n, ord).into_iter().map(|c| vec![c]).collect();
+    // every consuming operation after the iterator was emptied from both ends (cursors crossed),
+    // and after one step from each end
+    for c in all_consuming(0, ord) {
+        let mut h = Vec::new();
+        for i in 0..n {
+            h.push(if i % 2 == 0 { Op::Next } else { Op::NextBack });
+        }
+        h.push(c);
+        out.push(h);
+    }
+    if n >= 3 {
+        for c in all_consuming(n - 2, ord) {
+            out.push(vec![Op::Next, Op::NextBack, c]);
+        }
+    }
     out.push(vec![Op::Len, Op::SizeHint]);
     // exhaust from the front, then 3 further calls
     let mut f = vec![Op::Next; n];
